@@ -639,8 +639,8 @@ class IndexSorts:
             nm = e.value.value.id
             if nm in self.gathered:
                 return "S"
-            if nm in self.params and nm in self.gathered.values():
-                return "F"
+            if nm in self.params:
+                return "F"      # confirmed when the same parameter is gathered: D = X[:, <feature indices>]
             return None
         if isinstance(e, ast.Call) and pf.call_name(e) == "len" and e.args:
             srt = self.sort(e.args[0], at)
@@ -652,8 +652,34 @@ class IndexSorts:
         return None
 
     # sorts of index-valued expressions ------------------------------------------
+    def _iter_elem_sort(self, it, at):
+        srt = self.sort(it, at)
+        if srt not in ("Farr", "Sarr"):
+            return None
+        if isinstance(it, ast.Call) and (pf.call_name(it) or "").split(".")[-1] in ("combinations", "product"):
+            return srt           # tuples of indices
+        return srt[0]
+
+    def _loop_binding(self, name, at):
+        """sort given to `name` by the innermost enclosing for-loop / comprehension that binds it;
+        (True, sort) when such a binder exists"""
+        child, par = at, pf.parent(at)
+        while par is not None and par is not self.fn:
+            if isinstance(par, ast.For) and isinstance(par.target, ast.Name) and par.target.id == name \
+                    and any(child is s for s in par.body):
+                return True, self._iter_elem_sort(par.iter, par)
+            if isinstance(par, (ast.ListComp, ast.GeneratorExp, ast.SetComp, ast.DictComp)):
+                for gen in par.generators:
+                    if isinstance(gen.target, ast.Name) and gen.target.id == name:
+                        return True, self._iter_elem_sort(gen.iter, par)
+            child, par = par, pf.parent(par)
+        return False, None
+
     def sort(self, e, at):
         if isinstance(e, ast.Name):
+            found, srt = self._loop_binding(e.id, at)
+            if found:
+                return srt
             ss = self.env.get(e.id, set())
             return next(iter(ss)) if len(ss) == 1 else None
         if isinstance(e, ast.Call):
@@ -703,18 +729,6 @@ class IndexSorts:
                         and self.sort(v.slice.elts[1], n) == "Farr":
                     self.gathered[t] = v.value.id
                 self._bind(t, self.sort(v, n))
-            elif isinstance(n, (ast.For, ast.comprehension)):
-                it = n.iter
-                srt = self.sort(it, n if isinstance(n, ast.For) else it)
-                if srt in ("Farr", "Sarr"):
-                    inner = srt
-                    # elements of combinations(...) are tuples of indices, elements of an index array are indices
-                    if isinstance(it, ast.Call) and (pf.call_name(it) or "").split(".")[-1] in ("combinations", "product"):
-                        elem = inner
-                    else:
-                        elem = inner[0]
-                    if isinstance(n.target, ast.Name):
-                        self._bind(n.target.id, elem)
 
     # uses -----------------------------------------------------------------
     def uses(self):
